@@ -591,6 +591,10 @@ func (p Patch) replace(doc *container, op Operation) error {
 	if path == "" {
 		val := op.value()
 
+		if val == nil {
+			return fmt.Errorf("replace operation is missing its value: %w", ErrInvalid)
+		}
+
 		if val.which == eRaw {
 			if !val.tryDoc() {
 				if !val.tryAry() {
